@@ -1832,6 +1832,31 @@ var c09ColConfigs = [][]c09Col{
 	{{}, {Optional: true}},
 	{{Desc: true}, {Optional: true, NullsFirst: true}},
 	{{Optional: true}, {Desc: true}},
+	{{}, {Desc: true}},
+	{{Desc: true}, {Desc: true}},
+	{{}, {}, {}},
+	{{}, {Desc: true}, {}},
+	{{Desc: true}, {}, {Optional: true, Desc: true}},
+	{{Optional: true, NullsFirst: true}, {Desc: true}, {Optional: true}},
+}
+
+// c09GenExtras: 1..max extra columns of random shapes at random positions
+// relative to the sorting columns (intn is the source of every choice).
+func c09GenExtras(intn func(int) int, max int) ([]c09Extra, int64) {
+	n := 1 + intn(max)
+	xs := make([]c09Extra, n)
+	for i := range xs {
+		xs[i] = c09Extra{Name: fmt.Sprintf("%s%d", c09ExtraPos[intn(len(c09ExtraPos))], i), Shape: c09ExtraShapes[intn(len(c09ExtraShapes))]}
+	}
+	return xs, 1 + int64(intn(1<<30))
+}
+
+// c09MaybeExtras adds extra columns to one case in three.
+func c09MaybeExtras(c *core.Ctx, cs *c09Case, max int) *c09Case {
+	if c.Rng.Intn(3) == 0 {
+		cs.Extras, cs.ExtraSeed = c09GenExtras(c.Rng.Intn, max)
+	}
+	return cs
 }
 
 func c09GenKey(c *core.Ctx, cols []c09Col, lo, hi int64) c09Key {
@@ -1931,9 +1956,61 @@ func c09GenBatches(c *core.Ctx) []int {
 	n := 1 + c.Rng.Intn(3)
 	bs := make([]int, n)
 	for i := range bs {
-		bs[i] = c09BatchSizes[c.Rng.Intn(len(c09BatchSizes))]
+		if c.Rng.Intn(2) == 0 {
+			bs[i] = 1 + c.Rng.Intn(64) // every length from 1 to 64
+		} else {
+			bs[i] = c09BatchSizes[c.Rng.Intn(len(c09BatchSizes))]
+		}
 	}
 	return bs
+}
+
+// c09GenRunInputs: k inputs that take turns: the key space is cut into runs of
+// 1..maxRun rows, each given to one input (never the one of the previous run),
+// so that every input wins runs of every length up to maxRun in a row (run
+// mode of the merge readers: runLength, emitRun) and every run ends inside the
+// window of rows buffered for it.  A run starts at a key above the last key of
+// the previous run or (one in three) ties with it.
+func c09GenRunInputs(c *core.Ctx, cols []c09Col, k, total, maxRun int) [][]c09Key {
+	ins := make([][]c09Key, k)
+	v := int64(c.Rng.Intn(50))
+	prev := -1
+	dense := c.Rng.Intn(3) // 0: all keys of a run distinct, 1: mixed, 2: long equal stretches
+	for rows := 0; rows < total; {
+		i := c.Rng.Intn(k)
+		if k > 1 && i == prev {
+			i = (i + 1 + c.Rng.Intn(k-1)) % k
+		}
+		prev = i
+		n := 1 + c.Rng.Intn(maxRun)
+		if c.Rng.Intn(3) != 0 {
+			v++
+		}
+		for r := 0; r < n; r++ {
+			if r > 0 && (dense == 0 || (dense == 1 && c.Rng.Intn(2) == 0) || (dense == 2 && c.Rng.Intn(6) == 0)) {
+				v++
+			}
+			key := make(c09Key, len(cols))
+			x := v
+			if cols[0].Desc {
+				x = -v
+			}
+			key[0] = &x
+			for j := 1; j < len(cols); j++ {
+				if cols[j].Optional && c.Rng.Intn(6) == 0 {
+					continue
+				}
+				y := c.Rng.Int63n(3)
+				key[j] = &y
+			}
+			ins[i] = append(ins[i], key)
+		}
+		rows += n
+	}
+	for i := range ins {
+		c09SortKeys(cols, ins[i])
+	}
+	return ins
 }
 
 func c09GenReaders(c *core.Ctx, k int) *c09Case {
@@ -1943,8 +2020,8 @@ func c09GenReaders(c *core.Ctx, k int) *c09Case {
 	if k > 4 {
 		lens = c09Lens[:len(c09Lens)-6]
 	}
-	return &c09Case{Kind: "readers", Cols: cols, Inputs: c09GenInputs(c, cols, k, pattern, lens), Chunks: c09GenChunks(c, k),
-		EOFData: c.Rng.Intn(4) == 0, Batches: c09GenBatches(c), Note: pattern}
+	return c09MaybeExtras(c, &c09Case{Kind: "readers", Cols: cols, Inputs: c09GenInputs(c, cols, k, pattern, lens), Chunks: c09GenChunks(c, k),
+		EOFData: c.Rng.Intn(4) == 0, Batches: c09GenBatches(c), Note: pattern}, 3)
 }
 
 // ---- large file-backed inputs with ties at the page boundaries ---------------
@@ -2009,6 +2086,10 @@ func (b *c09Builder) keys(cols []c09Col) []c09Key {
 			}
 			ks[i][1] = &t1
 		}
+		for j := 2; j < len(cols); j++ {
+			x := int64(b.intn(3))
+			ks[i][j] = &x
+		}
 	}
 	c09SortKeys(cols, ks)
 	return ks
@@ -2044,7 +2125,11 @@ var c09TieShapes = []string{"tie-lower", "tie-lower-crafted", "tie-lower-at-min"
 // c09GenTie generates a large file-backed case around the boundary cases of
 // the cut lookups.  intn is the source of every choice.
 func c09GenTie(intn func(int) int, shape string, desc bool) *c09Case {
-	cols := []c09Col{{Desc: desc}, {}}
+	// two or three required sorting columns, the directions of the later ones mixed
+	cols := []c09Col{{Desc: desc}, {Desc: intn(3) == 0}}
+	if intn(4) == 0 {
+		cols = append(cols, c09Col{Desc: intn(2) == 0})
+	}
 	pageBuf := []int{256, 256, 512, 1024}[intn(4)]
 	rowsPerPage := 50
 	if st := c09PageStarts(cols, pageBuf, 400); len(st) > 1 {
@@ -2227,7 +2312,11 @@ func c09GenTie(intn func(int) int, shape string, desc bool) *c09Case {
 	if desc {
 		note += " (descending first column)"
 	}
-	return &c09Case{Kind: "groups", Cols: cols, Inputs: ins, Batches: []int{c09BatchSizes[intn(len(c09BatchSizes))]}, Backing: backing, PageBuf: pageBuf, Note: note}
+	cs := &c09Case{Kind: "groups", Cols: cols, Inputs: ins, Batches: []int{c09BatchSizes[intn(len(c09BatchSizes))]}, Backing: backing, PageBuf: pageBuf, Note: note}
+	if intn(4) == 0 {
+		cs.Extras, cs.ExtraSeed = c09GenExtras(intn, 2)
+	}
+	return cs
 }
 
 // c09FixedSeq: a fixed sequence of choices for the corpus cases
@@ -2246,7 +2335,7 @@ func c09FixedSeq(seed uint64) func(int) int {
 // ranges overlap at the boundaries, touch, contain the next one or are disjoint.
 func c09GenBig(c *core.Ctx) *c09Case {
 	k := 2 + c.Rng.Intn(3)
-	cols := [][]c09Col{{{}}, {{}}, {{Desc: true}}, {{}, {}}, {{Optional: true}}}[c.Rng.Intn(5)]
+	cols := [][]c09Col{{{}}, {{}}, {{Desc: true}}, {{}, {}}, {{Optional: true}}, {{Desc: true}, {}}, {{}, {Desc: true}, {}}, {{Desc: true}, {Desc: true}}}[c.Rng.Intn(8)]
 	ins := make([][]c09Key, k)
 	base := int64(0)
 	for j := 0; j < k; j++ {
@@ -2297,7 +2386,11 @@ func c09GenBig(c *core.Ctx) *c09Case {
 		backing[j] = "file"
 	}
 	pageBuf := []int{256, 512, 1024, 4096}[c.Rng.Intn(4)]
-	return &c09Case{Kind: "groups", Cols: cols, Inputs: ins, Batches: c09GenBatches(c), Backing: backing, PageBuf: pageBuf, Note: "big"}
+	cs := &c09Case{Kind: "groups", Cols: cols, Inputs: ins, Batches: c09GenBatches(c), Backing: backing, PageBuf: pageBuf, Note: "big"}
+	if c.Rng.Intn(4) == 0 {
+		cs.Extras, cs.ExtraSeed = c09GenExtras(c.Rng.Intn, 2)
+	}
+	return cs
 }
 
 // ---- cases.v ---------------------------------------------------------------
@@ -2450,6 +2543,90 @@ func runC09(c *core.Ctx) {
 		c.Note("exhaustive: every pair (triple) of sorted readers with keys in {0,1} and at most %d rows each (triples: at most %d rows in total), slice lengths 1, 2, 64 (1..3)", c.N(3, 4), c.N(5, 7))
 	}
 
+	// ---- every shape of extra column at every position relative to the sorting columns,
+	// through every kind of merge (two and more readers, buffers, files, dedupe)
+	for _, shape := range c09ExtraShapes {
+		for _, pos := range c09ExtraPos {
+			for v := 0; v < c.N(6, 12); v++ {
+				cols := [][]c09Col{{{}}, {{}, {}}, {{Desc: true}, {}}, {{}, {Desc: true}, {}}, {{Optional: true}, {}}}[c.Rng.Intn(5)]
+				cs := &c09Case{Cols: cols, Extras: []c09Extra{{Name: pos + "0", Shape: shape}}, ExtraSeed: 1 + int64(c.Rng.Intn(1<<30)), Batches: c09GenBatches(c)}
+				if c.Rng.Intn(3) == 0 {
+					// a second extra column somewhere else
+					more, _ := c09GenExtras(c.Rng.Intn, 1)
+					more[0].Name += "b"
+					cs.Extras = append(cs.Extras, more[0])
+				}
+				pattern := []string{"random", "nested", "chain", "dense", "runs"}[c.Rng.Intn(5)]
+				lens := c09Lens[4 : len(c09Lens)-6]
+				switch v % 6 {
+				case 0:
+					cs.Kind, cs.Inputs = "readers", c09GenInputs(c, cols, 2, pattern, lens)
+				case 1:
+					cs.Kind, cs.Inputs, cs.Chunks = "readers", c09GenInputs(c, cols, 3+c.Rng.Intn(4), pattern, lens), c09GenChunks(c, 6)
+				case 2:
+					cs.Kind, cs.Inputs = "groups", c09GenInputs(c, cols, 2+c.Rng.Intn(3), pattern, lens)
+				case 3:
+					cs.Kind, cs.Inputs, cs.PageBuf = "groups", c09GenInputs(c, cols, 2+c.Rng.Intn(3), pattern, lens), []int{64, 128, 300}[c.Rng.Intn(3)]
+					for range cs.Inputs {
+						cs.Backing = append(cs.Backing, "file")
+					}
+				case 4:
+					cs.Kind, cs.Inputs, cs.Dedupe, cs.PageBuf = "groups", c09GenInputs(c, cols, 2+c.Rng.Intn(3), pattern, lens), true, 128
+					for range cs.Inputs {
+						cs.Backing = append(cs.Backing, []string{"buffer", "file"}[c.Rng.Intn(2)])
+					}
+				default:
+					cs.Kind, cs.Inputs, cs.Chunks = "dedupe", c09GenInputs(c, cols, 1, "dense", lens), c09GenChunks(c, 1)
+				}
+				cs.Note = pattern
+				c09Run(c, cs, "extras/"+shape+"@"+pos)
+				if shape == "repeated" && pos == "a" && v < 2 {
+					c.Sample(cs)
+				}
+			}
+		}
+	}
+
+	// ---- run mode: inputs that take turns in runs of 1..40 rows, slice lengths 1..64
+	nRuns := c.N(1500, 15000)
+	for i := 0; i < nRuns; i++ {
+		cols := c09ColConfigs[c.Rng.Intn(len(c09ColConfigs))]
+		k := 2
+		if i%2 == 1 {
+			k = 3 + c.Rng.Intn(5)
+		}
+		cs := &c09Case{Kind: "readers", Cols: cols, Inputs: c09GenRunInputs(c, cols, k, 60+c.Rng.Intn(60*k), 40), Batches: []int{1 + i%64}, Note: "turns"}
+		switch c.Rng.Intn(4) {
+		case 0:
+			cs.Chunks = c09GenChunks(c, k)
+		case 1:
+			cs.Batches = append(cs.Batches, 1+c.Rng.Intn(64))
+		}
+		bucket := "readers/turns-k=2"
+		if k > 2 {
+			bucket = "readers/turns-k>2"
+		}
+		if i%5 == 4 {
+			// the same through MergeRowGroups (buffers: the exact row sequence is modelled; files)
+			cs.Kind, cs.Chunks, cs.Batches = "groups", nil, cs.Batches[:1]
+			bucket = "groups/turns"
+			if c.Rng.Intn(2) == 0 {
+				cs.PageBuf = []int{64, 128, 300}[c.Rng.Intn(3)]
+				for range cs.Inputs {
+					cs.Backing = append(cs.Backing, "file")
+				}
+			}
+			cs.NoRefine = c.Rng.Intn(3) == 0
+		}
+		if c.Rng.Intn(6) == 0 {
+			cs.Extras, cs.ExtraSeed = c09GenExtras(c.Rng.Intn, 2)
+		}
+		c09Run(c, cs, bucket)
+		if i%97 == 0 {
+			addVm(cs)
+		}
+	}
+
 	// ---- random readers
 	nReaders := c.N(10000, 100000)
 	for i := 0; i < nReaders; i++ {
@@ -2477,8 +2654,8 @@ func runC09(c *core.Ctx) {
 	for i := 0; i < nDedupe; i++ {
 		cols := c09ColConfigs[c.Rng.Intn(len(c09ColConfigs))]
 		pattern := []string{"dense", "runs", "identical", "random"}[c.Rng.Intn(4)]
-		cs := &c09Case{Kind: "dedupe", Cols: cols, Inputs: c09GenInputs(c, cols, 1, pattern, c09Lens), Chunks: c09GenChunks(c, 1),
-			EOFData: c.Rng.Intn(4) == 0, Batches: c09GenBatches(c), Note: pattern}
+		cs := c09MaybeExtras(c, &c09Case{Kind: "dedupe", Cols: cols, Inputs: c09GenInputs(c, cols, 1, pattern, c09Lens), Chunks: c09GenChunks(c, 1),
+			EOFData: c.Rng.Intn(4) == 0, Batches: c09GenBatches(c), Note: pattern}, 3)
 		c09Run(c, cs, "dedupe")
 	}
 
@@ -2495,6 +2672,7 @@ func runC09(c *core.Ctx) {
 		if c.Rng.Intn(2) == 0 {
 			cs.Batches = cs.Batches[:1]
 		}
+		c09MaybeExtras(c, cs, 3)
 		mode := c.Rng.Intn(3)
 		for j := 0; j < k; j++ {
 			b := "buffer"
@@ -2528,10 +2706,10 @@ func runC09(c *core.Ctx) {
 		} else {
 			proto = c09GenBig(c)
 		}
-		cols, ins, backing, pageBuf, batches := proto.Cols, proto.Inputs, proto.Backing, proto.PageBuf, proto.Batches
 		var keysRefined []c09Out
 		for _, noRefine := range []bool{false, true} {
-			cs := &c09Case{Kind: "groups", Cols: cols, Inputs: ins, Batches: batches, Backing: backing, PageBuf: pageBuf, NoRefine: noRefine, Note: proto.Note}
+			cs := c09Clone(proto)
+			cs.NoRefine = noRefine
 			var info c09GroupsInfo
 			ok := true
 			c09Fail = ""
@@ -2571,7 +2749,8 @@ func runC09(c *core.Ctx) {
 		}
 		// dedupe on the same inputs (refinement is not applied)
 		if i%3 == 0 {
-			cs := &c09Case{Kind: "groups", Cols: cols, Inputs: ins, Batches: batches, Backing: backing, PageBuf: pageBuf, Dedupe: true, Note: proto.Note}
+			cs := c09Clone(proto)
+			cs.Dedupe = true
 			c09Run(c, cs, "groups/big+dedupe")
 		}
 	}
